@@ -103,12 +103,12 @@ PROPS = {
     "C15": dict(kind="cli", files=["Cli.v", "Cli_Proofs.v", "gen/Skeletons.v", "SkeletonPins.v"],
                 theorems=[thm("C15_rm", "Cli_Proofs"), thm("pin_main_run", "Cli_Proofs"),
                           thm("pin_moq_new", "Cli_Proofs")]),
-    "C16": dict(kind="gen", files=["Cli.v", "Cli_Proofs.v", "TmplClosed.v", "gen/Skeletons.v", "SkeletonPins.v"],
+    "C16": dict(kind="gen", files=["Cli.v", "Cli_Proofs.v", "TmplMarker.v", "gen/Skeletons.v", "SkeletonPins.v"],
                 theorems=[thm("C16_dispatch", "Cli_Proofs"), thm("C16_noop_then_gofmt", "Cli_Proofs"),
                           thm("C16_canonical", "Cli_Proofs"), thm("pin_mocker_format", "Cli_Proofs"),
                           thm("pin_gofmt", "Cli_Proofs"), thm("pin_goimports", "Cli_Proofs"),
-                          thm("moq_template_marker_first", "TmplClosed"),
-                          thm("C16_marker_first_line", "TmplClosed")],
+                          thm("moq_template_marker_first", "TmplMarker"),
+                          thm("C16_marker_first_line", "TmplMarker")],
                 oracle=O.o_c16, known=[]),
     "C17": dict(kind="cli", files=["Cli.v", "Cli_Proofs.v", "gen/Skeletons.v", "SkeletonPins.v"],
                 theorems=[thm("C17_fail_no_stdout", "Cli_Proofs"), thm("C17_fail_out_untouched", "Cli_Proofs"),
